@@ -343,3 +343,34 @@ Proof.
   - intros d0 y _. exact I.
   - exact Hx.
 Qed.
+
+(** * a part that stays was offered to every downstream neighbour, and every one of them refused (C03) *)
+Inductive refused_all (nw : Z) (fuel : nat) (it : item) : fw -> list Z -> fw -> Prop :=
+| ra_nil w : refused_all nw fuel it w [] w
+| ra_cons w d' w' l w'' : give fuel nw w d' it = (w', false) -> refused_all nw fuel it w' l w'' -> refused_all nw fuel it w (d' :: l) w''.
+
+Lemma try_list_all_refused nw fuel it : forall l w0 w1,
+  fold_left (fun (acc : fw * bool) d' => if snd acc then acc else give fuel nw (fst acc) d' it) l (w0, false) = (w1, false) ->
+  refused_all nw fuel it w0 l w1.
+Proof.
+  induction l as [|d' l IH]; intros w0 w1 H; cbn in H.
+  - injection H as <-. constructor.
+  - destruct (give fuel nw w0 d' it) as [w2 b2] eqn:G. destruct b2.
+    + exfalso. assert (K : forall l0 (w : fw), fold_left (fun (acc : fw * bool) d0 => if snd acc then acc else give fuel nw (fst acc) d0 it) l0 (w, true) = (w, true)).
+      { induction l0; intro w; cbn; auto. }
+      rewrite K in H. discriminate.
+    + econstructor; [exact G|apply IH, H].
+Qed.
+
+(** the hand-over attempt of a device ended with the part still there: it was offered, in the longest-idle-first order, to every
+    configured downstream neighbour and each refused; the waiting flag is set (so the next signal re-attempts at once) *)
+Theorem handler_pass_genuinely_blocked fuel nw w d w' it :
+  handler_pass fuel nw w d = (w', false) -> d_out (getd w d) = Some it -> operational (getd w d) = true -> amem d (f_devs w) = true ->
+  exists w1, refused_all nw fuel it w (sorted_down fuel w d) w1 /\ w' = updd w1 d (t_waiting_ds true) /\
+             Permutation (sorted_down fuel w d) (d_down (getd w d)).
+Proof.
+  unfold handler_pass. intros H O OP M. rewrite O, OP in H. cbn [negb] in H.
+  destruct (try_downstream fuel nw w d it) as [w1 ok] eqn:TD. destruct ok; [discriminate|]. injection H as <-.
+  exists w1. split; [|split; [reflexivity|apply sorted_down_perm]].
+  unfold try_downstream in TD. apply try_list_all_refused, TD.
+Qed.
